@@ -1,6 +1,6 @@
 """
 Translator module for the CONSTRUCTORS and the circuit registry (C14), called from tools/py2lean.py: main().
-Regenerates lean/EdzedModel/Gen/TranslatedCtor.lean from the CURRENT source of
+Regenerates lean/EdzedModel/Gen/TranslatedBlkCtor.lean from the CURRENT source of
 
     block.check_name                         checkName
     Block.__init__                           blockInit      (+ blockInitCall: the binding of *args / **kwargs
@@ -13,7 +13,7 @@ Regenerates lean/EdzedModel/Gen/TranslatedCtor.lean from the CURRENT source of
     Circuit.is_current_task                  isCurrentTask
     simulator.get_circuit / reset_circuit    getCircuit, resetCircuit
 
-Every function becomes a program in the monad `M σ` of lean/EdzedModel/CtorPy.lean (state = heap of objects
+Every function becomes a program in the monad `M σ` of lean/EdzedModel/BlkCtorPy.lean (state = heap of objects
 and module globals, exception = class name).  From the AST come: the ORDER of the statements, the nesting and
 the conditions of `if` (`and` / `or` / `not` with short circuit, `is [not] None`, `is UNDEF`, `isinstance`,
 truthiness according to the STATIC TYPE of the tested expression -- an argument, a str, a bool, a list),
@@ -29,7 +29,7 @@ one branch / the caller's argument in the other; a looked-up object / the argume
 function; otherwise it yields a `Flow` (returned value | the locals the rest needs).  A module-level statement
 `_current_circuit = None` of simulator.py becomes `moduleCurrentCircuit`.
 
-Declared (tables below; lean/EdzedModel/CtorPy.lean documents each primitive) is only the meaning of the
+Declared (tables below; lean/EdzedModel/BlkCtorPy.lean documents each primitive) is only the meaning of the
 leaves that are not plain values: attribute reads, calls of code translated elsewhere or not edzed's.  A leaf
 or statement that is neither covered by a structural rule nor in a table, a parameter that is not declared, a
 changed decorator, a `super()` / method / global that does not resolve to the expected object: UNTRANSLATABLE --
@@ -1216,7 +1216,7 @@ def exc_table():
             'def catches (handler : String) (e : PyExc) : Bool := (excBases e).contains handler\n')
 
 
-def main_ctor(outfile, write_if_changed):
+def main_blkctor(outfile, write_if_changed):
     EXC_SEEN.clear()
     DONE.clear()
     defs = []
@@ -1225,7 +1225,7 @@ def main_ctor(outfile, write_if_changed):
     except Exception as err:
         msg = ' '.join(str(err).split())[:200]
         defs.append(f'-- UNTRANSLATABLE `simulator._current_circuit`: definition `moduleCurrentCircuit` omitted ({msg})\n')
-        print(f'UNTRANSLATABLE ctor moduleCurrentCircuit (simulator._current_circuit): {msg}')
+        print(f'UNTRANSLATABLE blkctor moduleCurrentCircuit (simulator._current_circuit): {msg}')
     for name, doc, make, extra in targets():
         try:
             check_exports(doc)
@@ -1267,10 +1267,10 @@ def main_ctor(outfile, write_if_changed):
         except Exception as err:
             msg = ' '.join(str(err).split())[:200]
             defs.append(f'-- UNTRANSLATABLE `{doc}`: definition `{name}` omitted ({type(err).__name__}: {msg})\n')
-            print(f'UNTRANSLATABLE ctor {name} ({doc}): {msg}')
-    L = ['/- GENERATED by tools/py2lean_ctor.py (via tools/py2lean.py) from the Python source of edzed -- do not edit -/',
-         'import EdzedModel.CtorPy', '', 'set_option linter.unusedVariables false', '',
-         'namespace Edzed.Gen.TrC', 'open Edzed.CtorPy', '', exc_table()]
+            print(f'UNTRANSLATABLE blkctor {name} ({doc}): {msg}')
+    L = ['/- GENERATED by tools/py2lean_blkctor.py (via tools/py2lean.py) from the Python source of edzed -- do not edit -/',
+         'import EdzedModel.BlkCtorPy', '', 'set_option linter.unusedVariables false', '',
+         'namespace Edzed.Gen.TrBC', 'open Edzed.BlkCtorPy', '', exc_table()]
     L += defs
-    L += ['end Edzed.Gen.TrC']
+    L += ['end Edzed.Gen.TrBC']
     write_if_changed(outfile, '\n'.join(L) + '\n')
